@@ -10,6 +10,14 @@ by the read must equal the model's.  At steps whose direction contradicts the ad
 address, read from an A0=0 address) the documentation is silent / the maintainers' tests contradict each other,
 so only "Python == Rust" (which the statement demands) is asserted there.
 
+Long-range dimensions: bulk verbs ["W", addr, v0, step, n] / ["R", addr, n] give single stretches of 65..196608
+accesses (several wraps of the column counter in one data run; boundary-weighted numbers of writes between two
+status polls).  The way the accesses reach the implementation is a generated dimension as well: Python writes go
+through HD61202Controller.write, LCDPipeline.apply_raw / apply, or LCDPipeline.replay of groups of consecutive
+writes (the controller's own pipeline, or a second pipeline over the same chips without / with a late observer);
+Rust through a LcdController value or the Box<dyn LcdHal> of create_lcd().  After each clean history its write-only
+projection is additionally replayed from power-on through replay_operations() and a fresh LCDPipeline().replay().
+
 Part B (pixel map, complete enumeration): for every chip x page x column x bit (8192 VRAM bits) the bit is
 flipped by a data write and the 32x240 display buffer is diffed: every VRAM bit changes at most one pixel,
 every one of the 7680 pixels is changed by exactly one VRAM bit, a multi-bit data write changes at most eight
@@ -29,17 +37,24 @@ from .. import c15_model as M
 from .. import c15_gen as GEN
 
 PROPERTY = "C15"
-RULE = ("(A) histories of 40-320 LCD-window accesses from a deterministic stream: instruction writes (on/off, set Y, "
+RULE = ("(A) histories of 40-320 ops (LCD-window accesses) from a deterministic stream: instruction writes (on/off, set Y, "
         "set page, start line incl. don't-care bits), data writes, status/data reads, page fills of 65-200 bytes "
         "(column wrap-around), read sweeps, read-modify-write, busy polling, chip interleaving, CS none/both, window "
-        "base 0x2000/0xA000 with arbitrary bits 4-11; 1/3 of the histories additionally use raw accesses over all 16 "
-        "low-nibble decodings in both directions; every step compared model/Python/Rust. Non-trivial = on BOTH chips "
-        "the column counter wrapped 63->0 or a data read followed a set-Y; distinct = hash of the op list. "
+        "base 0x2000/0xA000 with arbitrary bits 4-11; bulk verbs: single data runs / read sweeps of 65-575 accesses "
+        "(several column wraps) and un-polled write stretches whose length between two status polls of a chip is "
+        "exactly 2^k-1, 2^k or 2^k+1 (k = 4..10 everywhere, 11..13 in 1/6 of the histories, one forced stretch of "
+        "2^15..3*2^16 writes per shard); 1/3 of the histories additionally use raw accesses over all 16 "
+        "low-nibble decodings in both directions; per history a generated feeding path (Python: controller.write, "
+        "pipeline.apply_raw/apply, pipeline.replay of write groups with/without/late observer; Rust: LcdController "
+        "value or Box<dyn LcdHal>); every step (Python: every write group) compared model/Python/Rust; the write-only "
+        "projection of every clean history is replayed from power-on through replay_operations() and a fresh "
+        "LCDPipeline().replay(). Non-trivial = on BOTH chips "
+        "the column counter wrapped 63->0 or a data read followed a set-Y; distinct = hash of the op list + path options. "
         "(B) complete enumeration of the 8192 VRAM bits per (model, base VRAM pattern, start lines) configuration, "
         "plus two multi-bit data writes per VRAM byte; non-trivial = the probe changed at least one pixel.")
 
 REG_NAMES = ("on", "start_line", "page", "y_address")
-Obs = Tuple[Optional[int], List[Tuple[Any, Any, Any, Any]], bytes]  # (read result, regs x2, vram 1024)
+Obs = Tuple[Any, List[Tuple[Any, Any, Any, Any]], bytes]  # (read result [run: (last, answered, digest)], regs x2, vram 1024)
 
 ASSUMPTIONS = [
     "controller objects are driven directly (HD61202Controller.read/write, LcdController::read/write); routing of the "
@@ -51,7 +66,15 @@ ASSUMPTIONS = [
     "busy: set by every accepted instruction/data write, cleared by a status read, untouched by a data read (both "
     "models and their unit tests agree; the datasheet timing of BUSY is not modelled); Rust's busy flag is only "
     "observable through status reads",
-    "statistics counters (instruction/data counts, cs_*_count) and write-provenance traces are not compared",
+    "statistics counters (instruction/data counts, cs_*_count), write-provenance traces and the event dictionaries "
+    "LCDPipeline hands to observers are not compared",
+    "LCDPipeline paths: a write whose address parse_command() rejects with ValueError (A0=1 or CS=none; the maintainers' "
+    "test_chip_select_none_error / test_read_operation_error) cannot be turned into an LCDOperation and is left out of "
+    "the replayed list; apply_raw() raising that ValueError counts as 'ignored' exactly as HD61202Controller.write "
+    "treats it; reads always go through HD61202Controller.read of the controller that owns the chips; a second "
+    "LCDPipeline(chips=controller.chips) is a legitimate use of the public constructor",
+    "VRAM shape: LCDSnapshot.vram of each chip must be 8 rows of 64 byte values (the statement's vram[8][64]); "
+    "anything else is reported as a VRAM violation of the step that produced it",
     "pixel map is enumerated with both chips switched on (Python blanks a chip that is off, Rust does not: the "
     "statement does not constrain display-off rendering, display buffers are not compared in that state)",
     "start line: Rust scrolls the chip rows (its unit tests), Python ignores START_LINE when rendering (its scrolling "
@@ -67,36 +90,134 @@ ASSUMPTIONS = [
 # Drivers
 # ---------------------------------------------------------------------------------------------------------
 
+PY_VIAS = ("controller", "apply-raw", "apply", "replay-observed", "replay", "replay-late-observer")
+REPLAY_VIAS = ("replay-observed", "replay", "replay-late-observer")
+RS_VIAS = ("direct", "hal")
+
+
+def _noop_observer(_event: Dict[str, Any], _snapshot: Any) -> None:
+    return None
+
+
 class PyLcd:
-    """The Python implementation under test, observed through its public API."""
+    """The Python implementation under test, observed through its public API.
 
-    def __init__(self) -> None:
+    `via` selects the public path the writes take (reads always use HD61202Controller.read):
+      controller            HD61202Controller.write, one call per write
+      apply-raw             controller.pipeline.apply_raw(address, value)
+      apply                 controller.pipeline.apply(LCDOperation(parse_command(address, value)))
+      replay-observed       controller.pipeline.replay([...])     (the controller's observer is subscribed)
+      replay                LCDPipeline(chips=controller.chips).replay([...])   (nobody subscribed)
+      replay-late-observer  as `replay`; an observer is subscribed after `observe_at` replay calls
+    """
+
+    def __init__(self, via: str = "controller", observe_at: int = 0) -> None:
         from pce500.display.controller_wrapper import HD61202Controller
+        from pce500.display.pipeline import LCDPipeline
 
+        if via not in PY_VIAS:
+            raise HarnessError(f"unknown python path {via!r}")
         self.c = HD61202Controller()
+        self.via = via
+        self.observe_at = observe_at
+        self.replays = 0
+        self.pipe = self.c.pipeline if via in ("controller", "apply-raw", "apply", "replay-observed") \
+            else LCDPipeline(chips=self.c.chips)
+        self.last_snapshot = None
+        self.shape_problem: Optional[str] = None
         self.base = None
 
     def write(self, addr: int, value: int) -> None:
-        self.c.write(addr, value)
+        self.write_group([(addr, value)])
+
+    def write_group(self, writes: Sequence[Tuple[int, int]]) -> None:
+        """Feed consecutive writes through the selected path (one replay() call for the replay paths)."""
+        from pce500.display.hd61202 import parse_command
+        from pce500.display.pipeline import LCDOperation
+
+        self.last_snapshot = None
+        via = self.via
+        if via == "controller":
+            for a, v in writes:
+                self.c.write(a, v)
+            return
+        if via == "apply-raw":
+            for a, v in writes:
+                try:
+                    self.pipe.apply_raw(a, v)
+                except ValueError:
+                    pass  # parse_command rejects the address: ignored, as HD61202Controller.write does
+            return
+        opers = []
+        for i, (a, v) in enumerate(writes):
+            try:
+                opers.append(LCDOperation(parse_command(a, v), pc=0xF0000 + (i & 0xFFF)))
+            except ValueError:
+                pass
+        if via == "apply":
+            for o in opers:
+                self.pipe.apply(o)
+            return
+        if via == "replay-late-observer" and self.replays == self.observe_at:
+            self.pipe.subscribe(_noop_observer)
+        self.replays += 1
+        self.last_snapshot = self.pipe.replay(opers)
 
     def read(self, addr: int) -> Optional[int]:
+        self.last_snapshot = None
         return self.c.read(addr)
 
-    def observe(self, ret: Optional[int]) -> Obs:
-        snap = self.c.get_snapshot()
-        regs = []
-        vram = bytearray()
-        for ch in snap.chips:
-            regs.append((ch.on, ch.start_line, ch.page, ch.y_address))
-            for row in ch.vram:
-                vram.extend(v & 0xFF if isinstance(v, int) and 0 <= v <= 255 else 0xEE for v in row)
-        return ret, regs, bytes(vram)
+    def read_run(self, addr: int, n: int) -> Tuple[Optional[int], int, int]:
+        self.last_snapshot = None
+        acc = M.RunDigest()
+        for _ in range(n):
+            acc.add(self.c.read(addr))
+        return acc.result()
+
+    def observe(self, ret: Any) -> Obs:
+        # replay() returns the snapshot itself; every other path is observed with get_snapshot()/pipeline.snapshot
+        snap = self.last_snapshot if self.last_snapshot is not None else (
+            self.c.get_snapshot() if self.pipe is self.c.pipeline else self.pipe.snapshot)
+        regs, vram, self.shape_problem = snapshot_obs(snap)
+        return ret, regs, vram
 
     def busy(self) -> List[bool]:
         return [bool(ch.state.busy) for ch in self.c.chips]
 
     def display(self):
         return self.c.get_display_buffer()
+
+
+def snapshot_obs(snap: Any) -> Tuple[List[Tuple[Any, Any, Any, Any]], bytes, Optional[str]]:
+    """(registers x2, flattened VRAM, shape problem) of an LCDSnapshot."""
+    regs = []
+    vram = bytearray()
+    problem: Optional[str] = None
+    chips = list(snap.chips)
+    if len(chips) != 2:
+        problem = f"{len(chips)} chips"
+    for ci, ch in enumerate(chips[:2]):
+        regs.append((ch.on, ch.start_line, ch.page, ch.y_address))
+        rows = list(ch.vram)
+        widths = sorted({len(row) for row in rows})
+        if (len(rows) != 8 or widths != [64]) and problem is None:
+            problem = f"{M.CHIP_NAME[ci]} chip vram is {len(rows)} rows x {widths} columns"
+        for row in rows:
+            try:
+                chunk = bytes(row) if set(map(type, row)) <= {int} else None
+            except (ValueError, TypeError):
+                chunk = None
+            if chunk is None:  # slow path: some entry is not a byte value
+                chunk = bytearray()
+                for v in row:
+                    ok = type(v) is int and 0 <= v <= 255
+                    if not ok and problem is None:
+                        problem = f"{M.CHIP_NAME[ci]} chip vram holds a non-byte value {v!r}"
+                    chunk.append(v if ok else 0xEE)
+            vram += chunk
+    while len(regs) < 2:
+        regs.append((None, None, None, None))
+    return regs, bytes(vram), problem
 
 
 def py_run_ops(ops: Sequence[Sequence[Any]]) -> List[Dict[str, Any]]:
@@ -152,14 +273,32 @@ def _sel_word(ci: int, sel: Tuple[int, ...]) -> str:
 
 
 def _diff_expected(impl: str, exp: Obs, obs: Obs, prev: Obs, sel: Tuple[int, ...], is_status: bool,
-                   pre_cell: Optional[int]) -> Tuple[List[str], List[str], List[str]]:
+                   pre_cell: Optional[int], shape: Optional[str] = None) -> Tuple[List[str], List[str], List[str]]:
     """Field-level diff of one implementation against the model -> (fields, symptoms, details)."""
     fields: List[str] = []
     sym: List[str] = []
     det: List[str] = []
     er, eregs, ev = exp
     orr, oregs, ov = obs
-    if er != orr:
+    if er != orr and isinstance(er, tuple):
+        fields.append("read-value")
+        ol = orr if isinstance(orr, tuple) and len(orr) == 3 else (orr, None, None)
+        if is_status and isinstance(er[0], int) and isinstance(ol[0], int) and er[0] != ol[0]:
+            bits = []
+            x = (er[0] ^ ol[0]) & 0xFF
+            if x & 0x80:
+                bits.append("busy bit")
+            if x & 0x20:
+                bits.append("on/off bit")
+            if x & 0x5F:
+                bits.append("other bits")
+            sym.append("status " + "+".join(bits) + " wrong")
+        elif er[1] != ol[1]:
+            sym.append("read run: number of answered reads differs")
+        else:
+            sym.append("read run: sequence of returned bytes differs")
+        det.append(f"read run (last, answered, digest) expected {er!r} got {ol!r}")
+    elif er != orr:
         fields.append("read-value")
         if er is None:
             sym.append("read returned a value where the protocol returns nothing")
@@ -189,7 +328,11 @@ def _diff_expected(impl: str, exp: Obs, obs: Obs, prev: Obs, sel: Tuple[int, ...
                 if item not in sym:
                     sym.append(item)
                 det.append(f"{M.CHIP_NAME[ci]}.{name} expected {eregs[ci][fi]!r} got {oregs[ci][fi]!r}")
-    if ev != ov:
+    if shape:
+        fields.append("vram")
+        sym.append("vram is not 8 pages x 64 columns of byte values")
+        det.append(shape)
+    elif ev != ov:
         fields.append("vram")
         if len(ov) != len(ev):
             sym.append("vram size wrong")
@@ -247,12 +390,15 @@ def _rs_obs(step: Dict[str, Any], rs_vram: bytearray) -> Obs:
         if v[i] < len(rs_vram):
             rs_vram[v[i]] = v[i + 1]
     regs = [tuple(s[0:4]), tuple(s[4:8])]
-    return step.get("r"), regs, bytes(rs_vram)
+    ret = step.get("r")
+    if "rs" in step:
+        ret = (ret, step["rs"][0], step["rs"][1])
+    return ret, regs, bytes(rs_vram)
 
 
-def _rs_probe_busy(prefix: List[List[Any]]) -> Optional[List[bool]]:
+def _rs_probe_busy(prefix: List[List[Any]], rs_via: str = "direct") -> Optional[List[bool]]:
     probe = [list(o) for o in prefix] + [["r", 0x2009], ["r", 0x2005]]  # status read: left, right
-    rr = rs_run([{"ops": probe, "snap": False}])[0]
+    rr = rs_run([{"ops": probe, "snap": False, "via": rs_via}])[0]
     steps = rr.get("steps", [])
     if len(steps) != len(probe):
         return None  # a panic inside the prefix is reported by the main comparison
@@ -265,64 +411,194 @@ def _rs_probe_busy(prefix: List[List[Any]]) -> Optional[List[bool]]:
     return out
 
 
-def judge_history(ops: List[List[Any]], rs_result: Dict[str, Any]) -> Tuple[List[Violation], List[str], bool, Dict[str, Any]]:
-    """Run one history through model + Python (lock-step here) + Rust (pre-computed) -> violations, labels, NT."""
+def case_opts(case: Dict[str, Any]) -> Dict[str, Any]:
+    """Path options of a history case (defaults = the round-1 configuration)."""
+    return {"py_via": case.get("py_via", "controller"), "rs_via": case.get("rs_via", "direct"),
+            "group": max(1, int(case.get("group", 1))), "observe_at": int(case.get("observe_at", 0))}
+
+
+def _make_case(ops: List[List[Any]], opts: Dict[str, Any]) -> Dict[str, Any]:
+    case: Dict[str, Any] = {"kind": "history", "ops": ops}
+    if opts["py_via"] != "controller":
+        case["py_via"] = opts["py_via"]
+    if opts["py_via"] in REPLAY_VIAS:
+        case["group"] = opts["group"]
+    if opts["py_via"] == "replay-late-observer":
+        case["observe_at"] = opts["observe_at"]
+    if opts["rs_via"] != "direct":
+        case["rs_via"] = opts["rs_via"]
+    return case
+
+
+def expand_writes(op: Sequence[Any]) -> List[Tuple[int, int]]:
+    if op[0] == "w":
+        return [(op[1], op[2])]
+    return [(op[1], v) for v in M.run_values(op[2], op[3], op[4])]
+
+
+def _classify(op: Sequence[Any]) -> Tuple[str, bool]:
+    """Semantic class of an op (fingerprint `where`) and whether its direction matches the address."""
+    if op[0] == "w":
+        return M.Model.classify_write(op[1], op[2])
+    if op[0] == "r":
+        return M.Model.classify_read(op[1])
+    cs, di, rw = M.decode(op[1])
+    if op[0] == "W":
+        if rw:  # direction mismatch: same class as the single write (one root cause, one fingerprint)
+            return M.Model.classify_write(op[1], op[2])
+        return f"write-run {'data' if di else 'instr'} cs={M.CS_NAME[cs]}", True
+    if op[0] == "R":
+        if not rw:
+            return M.Model.classify_read(op[1])
+        return f"read-run {'data' if di else 'status'} cs={M.CS_NAME[cs]}", True
+    raise HarnessError(f"unknown op {op!r}")
+
+
+def judge_history(ops: List[List[Any]], rs_result: Dict[str, Any],
+                  opts: Optional[Dict[str, Any]] = None) -> Tuple[List[Violation], List[str], bool, Dict[str, Any]]:
+    """Run one history through model + Python (lock-step here) + Rust (pre-computed) -> violations, labels, NT.
+
+    Rust is compared after every op.  Python is compared after every op as well, except on the replay paths, where
+    up to `group` consecutive direction-matched writes are handed to ONE LCDPipeline.replay() call and compared
+    after it (the model has then executed exactly the same writes)."""
+    opts = opts or case_opts({})
+    py_via, rs_via, group = opts["py_via"], opts["rs_via"], opts["group"]
+    grouping = py_via in REPLAY_VIAS and group > 1
+    py_tag = "py" if py_via == "controller" else f"py[{py_via}]"
+    rs_tag = "rs" if rs_via == "direct" else f"rs[{rs_via}]"
     viols: List[Violation] = []
     labels: set = set()
     model = M.Model()
-    py = PyLcd()
+    py = PyLcd(py_via, opts["observe_at"])
     rs_steps = rs_result.get("steps", [])
     rs_vram = bytearray(1024)
     init: Obs = (None, [(False, 0, 0, 0), (False, 0, 0, 0)], bytes(1024))
     prev_py = prev_rs = init
     info: Dict[str, Any] = {}
+    pending: List[Tuple[int, int]] = []  # python writes of the open group
+    pending_ops: List[int] = []
+    pending_sel: set = set()
+    unpolled = [0, 0]  # bookkeeping for coverage labels only
+
+    def py_flush(i: int, where_last: str) -> bool:
+        """Hand the open group to the Python path and compare with the model; True = violation (stop)."""
+        nonlocal prev_py
+        if not pending_ops:
+            return False
+        case = _make_case(ops[:i + 1], opts)
+        if len(pending_ops) == 1:
+            where = where_last
+        else:
+            kinds = sorted({"data" if M.decode(ops[k][1])[1] else "instr" for k in pending_ops})
+            where = "write group " + "+".join(kinds)
+            labels.add("py-group:" + "+".join(kinds))
+        sel = tuple(sorted(pending_sel))
+        n_writes = len(pending)
+        try:
+            py.write_group(pending)
+            obs = py.observe(None)
+        except Exception as exc:  # noqa: BLE001
+            viols.append(Violation(f"{py_tag}:exception", where, f"raises {type(exc).__name__}", case, repr(exc)[:200]))
+            return True
+        finally:
+            pending.clear()
+            pending_ops.clear()
+            pending_sel.clear()
+        exp: Obs = (None, model.regs(), model.vram())
+        fields, sym, det = _diff_expected(py_tag, exp, obs, prev_py, sel, False, None, py.shape_problem)
+        if fields:
+            viols.append(Violation(f"{py_tag}:" + "+".join(sorted(set(fields))), where, "; ".join(sym), case,
+                                   f"step {i} ({n_writes} write(s) in the group): " + "; ".join(det)))
+            return True
+        prev_py = obs
+        return False
+
     for i, op in enumerate(ops):
+        kind = op[0]
         addr = op[1]
         cs, di, rw = M.decode(addr)
         sel = M.selected(cs)
         pre_cell = None
-        if op[0] == "w":
-            where, matched = M.Model.classify_write(addr, op[2])
-            model.write(addr, op[2])
-            exp_ret = None
+        is_write = kind in ("w", "W")
+        where, matched = _classify(op)
+        if is_write:
+            if kind == "w":
+                model.write(addr, op[2])
+            else:
+                model.write_run(addr, op[2], op[3], op[4])
+                if matched and di and op[4] >= 129:
+                    labels.add("data-run>=129")
+            exp_ret: Any = None
+            if matched:
+                for ci in sel:
+                    unpolled[ci] += 1 if kind == "w" else op[4]
         else:
-            where, matched = M.Model.classify_read(addr)
-            if matched and di and len(sel) == 1:
-                c = model.chips[sel[0]]
-                pre_cell = c.vram[c.page * 64 + c.y]
-            exp_ret = model.read(addr)
+            if kind == "r":
+                if matched and di and len(sel) == 1:
+                    c = model.chips[sel[0]]
+                    pre_cell = c.vram[c.page * 64 + c.y]
+                exp_ret = model.read(addr)
+            else:
+                exp_ret = model.read_run(addr, op[2])
+            if matched and not di and len(sel) == 1:
+                n = unpolled[sel[0]]
+                if n >= 256:
+                    labels.add("poll-after>=256-writes")
+                if n >= 256 and n & (n - 1) == 0:
+                    labels.add(f"poll-after-2^{n.bit_length() - 1}-writes")
+                unpolled[sel[0]] = 0
         labels.add("op:" + where)
-        case = {"kind": "history", "ops": ops[:i + 1]}
+        case = _make_case(ops[:i + 1], opts)
+        groupable = is_write and matched
+        if not (grouping and groupable) and py_flush(i - 1, ""):
+            break
         prev_py_busy = py.busy() if not matched else None
         model_busy_before = [c.busy for c in model.chips]  # the model ignores direction-mismatched accesses
         # --- Python step
+        py_obs: Optional[Obs] = None
         try:
-            if op[0] == "w":
-                py.write(addr, op[2])
-                ret = None
+            if is_write:
+                if grouping and groupable:
+                    pending.extend(expand_writes(op))
+                    pending_ops.append(i)
+                    pending_sel.update(sel)
+                    last_of_group = (len(pending_ops) >= group or i + 1 >= len(ops)
+                                     or ops[i + 1][0] not in ("w", "W") or M.decode(ops[i + 1][1])[2] != 0)
+                else:
+                    py.write_group(expand_writes(op))
+                    py_obs = py.observe(None)
+            elif kind == "r":
+                py_obs = py.observe(py.read(addr))
             else:
-                ret = py.read(addr)
-            py_obs = py.observe(ret)
+                py_obs = py.observe(py.read_run(addr, op[2]))
         except Exception as exc:  # noqa: BLE001 -- any exception on a window access is a protocol violation
-            viols.append(Violation("py:exception", where, f"raises {type(exc).__name__}", case, repr(exc)[:200]))
+            viols.append(Violation(f"{py_tag}:exception", where, f"raises {type(exc).__name__}", case, repr(exc)[:200]))
             break
         # --- Rust step
         if i >= len(rs_steps):
-            viols.append(Violation("rs:panic", where, "rust panicked", case, str(rs_result.get("panic"))[:200]))
+            viols.append(Violation(f"{rs_tag}:panic", where, "rust panicked", case, str(rs_result.get("panic"))[:200]))
             break
         rs_obs = _rs_obs(rs_steps[i], rs_vram)
         exp: Obs = (exp_ret, model.regs(), model.vram())
         stop = False
+        is_status = (not is_write) and not di
         if matched:
-            for impl, obs, prev in (("py", py_obs, prev_py), ("rs", rs_obs, prev_rs)):
-                fields, sym, det = _diff_expected(impl, exp, obs, prev, sel, is_status=(op[0] == "r" and not di),
-                                                  pre_cell=pre_cell)
+            todo = [(rs_tag, rs_obs, prev_rs, None)]
+            if py_obs is not None:
+                todo.insert(0, (py_tag, py_obs, prev_py, py.shape_problem))
+            for impl, obs, prev, shape in todo:
+                fields, sym, det = _diff_expected(impl, exp, obs, prev, sel, is_status, pre_cell, shape)
                 if fields:
                     viols.append(Violation(f"{impl}:" + "+".join(sorted(set(fields))), where, "; ".join(sym), case,
                                            f"step {i} {op}: " + "; ".join(det)))
                     stop = True
+            if py_obs is None and not stop and last_of_group:
+                stop = py_flush(i, where)
         else:
+            assert py_obs is not None
             fields, sym, det = _diff_impls(py_obs, rs_obs, prev_py, prev_rs)
+            if py.shape_problem and not fields:
+                fields, sym, det = ["vram"], ["vram is not 8 pages x 64 columns of byte values"], [py.shape_problem]
             if fields:
                 viols.append(Violation("py-vs-rs:" + "+".join(sorted(set(fields))), where, "; ".join(sym), case,
                                        f"step {i} {op}: " + "; ".join(det)))
@@ -331,7 +607,7 @@ def judge_history(ops: List[List[Any]], rs_result: Dict[str, Any]) -> Tuple[List
                 # The busy flags are not part of either snapshot.  Python's is a public attribute; Rust's is probed
                 # on a fresh controller that replays the prefix and then reads both chips' status.
                 py_busy = py.busy()
-                rs_busy = _rs_probe_busy(ops[:i + 1])
+                rs_busy = _rs_probe_busy(ops[:i + 1], rs_via)
                 if rs_busy is None:
                     labels.add("busy-probe-unavailable")
                 elif py_busy != rs_busy:
@@ -350,7 +626,9 @@ def judge_history(ops: List[List[Any]], rs_result: Dict[str, Any]) -> Tuple[List
                     labels.add("model-resynced")
         if stop:
             break
-        prev_py, prev_rs = py_obs, rs_obs
+        if py_obs is not None:
+            prev_py = py_obs
+        prev_rs = rs_obs
     nt = model.nontrivial()
     for ci in (0, 1):
         if model.wrapped[ci]:
@@ -361,29 +639,156 @@ def judge_history(ops: List[List[Any]], rs_result: Dict[str, Any]) -> Tuple[List
     return viols, sorted(labels), nt, info
 
 
+# ---------------------------------------------------------------------------------------------------------
+# Part A': write-only projection replayed from power-on through the list-replaying entry points
+# ---------------------------------------------------------------------------------------------------------
+
+PROJECTION_PATHS = ("replay_operations", "LCDPipeline.replay")
+PROJECTION_MAX = 40000  # expanded writes
+
+
+def projection_writes(ops: List[List[Any]]) -> List[Tuple[int, int]]:
+    out: List[Tuple[int, int]] = []
+    for op in ops:
+        if op[0] in ("w", "W") and M.decode(op[1])[2] == 0:
+            out.extend(expand_writes(op))
+    return out
+
+
+def judge_projection(ops: List[List[Any]], paths: Sequence[str] = PROJECTION_PATHS) -> List[Violation]:
+    """The direction-matched writes of a history, replayed as ONE list on fresh chips, must leave the chips in the
+    state the protocol prescribes for those writes (registers, VRAM incl. its shape, busy flags)."""
+    from pce500.display.hd61202 import parse_command
+    from pce500.display.pipeline import LCDOperation, LCDPipeline, replay_operations
+
+    writes = projection_writes(ops)
+    model = M.Model()
+    for a, v in writes:
+        model.write(a, v)
+    exp: Obs = (None, model.regs(), model.vram())
+    init: Obs = (None, [(False, 0, 0, 0), (False, 0, 0, 0)], bytes(1024))
+    viols: List[Violation] = []
+    for path in paths:
+        case = {"kind": "projection", "path": path, "ops": ops}
+        where = f"{path} of a whole write list"
+        opers = []
+        for i, (a, v) in enumerate(writes):
+            try:
+                opers.append(LCDOperation(parse_command(a, v), pc=0xF0000 + (i & 0xFFF)))
+            except ValueError:
+                pass  # CS=none: not expressible as an LCDOperation (see assumptions)
+        try:
+            busy: Optional[List[bool]] = None
+            if path == "replay_operations":
+                snap, _events = replay_operations(opers)
+            elif path == "LCDPipeline.replay":
+                pipe = LCDPipeline()
+                snap = pipe.replay(opers)
+                again = snapshot_obs(pipe.snapshot)
+                busy = [bool(ch.state.busy) for ch in pipe.chips]
+            else:
+                raise HarnessError(f"unknown projection path {path!r}")
+            regs, vram, shape = snapshot_obs(snap)
+        except HarnessError:
+            raise
+        except Exception as exc:  # noqa: BLE001
+            viols.append(Violation("py-replay:exception", where, f"raises {type(exc).__name__}", case, repr(exc)[:200]))
+            continue
+        fields, sym, det = _diff_expected("py", exp, (None, regs, vram), init, (0, 1), False, None, shape)
+        if not fields and path == "LCDPipeline.replay" and again != (regs, vram, shape):
+            fields, sym, det = ["snapshot"], ["replay() result differs from pipeline.snapshot"], []
+        if not fields and busy is not None and busy != [c.busy for c in model.chips]:
+            fields, sym, det = ["busy"], ["busy flag wrong after the replay"], [f"busy {busy}"]
+        if fields:
+            viols.append(Violation("py-replay:" + "+".join(sorted(set(fields))), where,
+                                   "; ".join(s_.replace("selected chip", "a chip") for s_ in sym), case,
+                                   f"{len(opers)} operations: " + "; ".join(det)))
+    return viols
+
+
+def attribute_paths(viols: List[Violation], opts: Dict[str, Any]) -> List[Violation]:
+    """Keep one fingerprint per root cause: a violation found on a non-default feeding path (py[...] / rs[hal]) is
+    re-examined on the default path (HD61202Controller.write one by one / LcdController value) with the same ops.
+    If the default path violates too, the cause is not the path and that (genuine, separately reproducible)
+    default-path violation is reported instead; otherwise the path-tagged one stands."""
+    out: List[Violation] = []
+    for v in viols:
+        tag = v.subcheck.split(":", 1)[0]
+        if "[" not in tag:
+            out.append(v)
+            continue
+        base = dict(opts)
+        side = tag.split("[", 1)[0]
+        if side == "py":
+            base.update(py_via="controller", group=1, observe_at=0)
+        else:
+            base.update(rs_via="direct")
+        ops = [list(o) for o in v.case["ops"]]
+        rr = rs_run([{"ops": ops, "snap": True, "via": base["rs_via"]}])[0]
+        again, _l, _n, _i = judge_history(ops, rr, base)
+        same_side = [x for x in again if x.subcheck.split(":", 1)[0] == side]
+        out.append(same_side[0] if same_side else v)
+    seen = set()
+    uniq = []
+    for v in out:
+        k = (v.key(), jhash(v.case))
+        if k not in seen:
+            seen.add(k)
+            uniq.append(v)
+    return uniq
+
+
+BIG_EVERY = 1  # one history per shard (index 1) carries a forced stretch of 2^15 .. 3*2^16 un-polled writes
+
+
+def history_plan(seed: int, shard: int, j: int) -> Tuple[List[List[Any]], str, Dict[str, Any]]:
+    """(ops, profile, path options) of history j of a shard: a pure function of (seed, shard, j)."""
+    st = Stream(seed, 0xC15, shard, j)
+    profile = "hostile" if st.below(3) == 0 else "strict"
+    target = st.choice((40, 80, 120, 200, 320))
+    big = None
+    budget = "medium" if j % 6 == 2 else "small"
+    if j == 1:
+        # stratified over the shards so that every boundary count is exercised in every run
+        big = GEN.BOUND_BIG[(shard + mix32(seed, 0xB16) % len(GEN.BOUND_BIG)) % len(GEN.BOUND_BIG)]
+        profile = "strict"  # a hostile history may be cut short by the known write@read-address finding
+        target = min(target, 120)
+    ops = GEN.gen_history(st, profile, target, budget, big)
+    so = Stream(seed, 0xC15A, shard, j)
+    py_via = so.choice(("controller", "controller", "controller", "apply-raw", "apply", "replay-observed",
+                        "replay", "replay", "replay-late-observer"))
+    opts = {"py_via": py_via, "rs_via": "hal" if so.chance(1, 4) else "direct",
+            "group": so.choice((1, 2, 4, 16, 1000)), "observe_at": so.below(6)}
+    return ops, profile, opts
+
+
 def _hist_shard(task: Tuple[int, int, int, str]) -> Report:
     shard, count, seed, tier = task
     rep = Report()
-    hists: List[Tuple[List[List[Any]], str]] = []
-    for j in range(count):
-        st = Stream(seed, 0xC15, shard, j)
-        profile = "hostile" if st.below(3) == 0 else "strict"
-        target = st.choice((40, 80, 120, 200, 320))
-        hists.append((GEN.gen_history(st, profile, target), profile))
+    hists: List[Tuple[List[List[Any]], str, Dict[str, Any]]] = [history_plan(seed, shard, j) for j in range(count)]
     B = 24
     for i in range(0, len(hists), B):
         chunk = hists[i:i + B]
-        rs_res = rs_run([{"ops": ops, "snap": True} for ops, _ in chunk])
-        for (ops, profile), rr in zip(chunk, rs_res):
-            viols, labels, nt, info = judge_history(ops, rr)
+        rs_res = rs_run([{"ops": ops, "snap": True, "via": opts["rs_via"]} for ops, _p, opts in chunk])
+        for (ops, profile, opts), rr in zip(chunk, rs_res):
+            viols, labels, nt, info = judge_history(ops, rr, opts)
+            viols = attribute_paths(viols, opts)
+            labels = list(labels) + [f"py-via:{opts['py_via']}", f"rs-via:{opts['rs_via']}"]
+            if not viols:
+                if len(projection_writes(ops)) <= PROJECTION_MAX:
+                    viols = judge_projection(ops)
+                    labels.append("projection:replayed")
+                else:
+                    labels.append("projection:skipped(too long)")
             for v in viols:
                 rep.violate(v)
             sample = None
             if rep.evaluations < 1 and shard < 6:
-                sample = {"part": "history", "profile": profile, "n_ops": len(ops),
+                sample = {"part": "history", "profile": profile, "n_ops": len(ops), "paths": _make_case([], opts),
                           "ops_head": [[o[0], hex(o[1])] + o[2:] for o in ops[:10]],
                           "final_regs[on,start,page,y]": info.get("final_regs"), "nontrivial": nt}
-            rep.case(jhash(ops) if nt else None, [f"profile:{profile}", "nt" if nt else "trivial"] + labels, sample)
+            key = jhash([ops, _make_case([], opts)]) if nt else None
+            rep.case(key, [f"profile:{profile}", "nt" if nt else "trivial"] + labels, sample)
     return rep
 
 
@@ -701,6 +1106,16 @@ def run(ctx: Ctx) -> Report:
     return rep
 
 
+def _judge_case(case: Dict[str, Any]) -> List[Violation]:
+    ops = [list(o) for o in case["ops"]]
+    if case.get("kind") == "projection":
+        return judge_projection(ops, [case["path"]])
+    opts = case_opts(case)
+    rr = rs_run([{"ops": ops, "snap": True, "via": opts["rs_via"]}])[0]
+    viols, _labels, _nt, _info = judge_history(ops, rr, opts)
+    return viols
+
+
 def replay(ctx: Ctx, case: Dict[str, Any]) -> List[Violation]:
     rsclient.build()
     if case.get("kind") == "pixmap":
@@ -708,16 +1123,14 @@ def replay(ctx: Ctx, case: Dict[str, Any]) -> List[Violation]:
         cfg = {"impl": case["impl"], "base": case["base"], "starts": case["starts"]}
         run_pixmap(ctx, [cfg], rep)
         return rep.violations
-    ops = [list(o) for o in case["ops"]]
-    rr = rs_run([{"ops": ops, "snap": True}])[0]
-    viols, _labels, _nt, _info = judge_history(ops, rr)
-    return viols
+    return _judge_case(case)
 
 
 def shrink(ctx: Ctx, v: Violation) -> Violation:
-    """ddmin over the op list of a history witness (bounded); pixel-map witnesses are already minimal configs."""
+    """ddmin over the op list of a history witness, then shorter bulk runs (bounded); pixel-map witnesses are
+    already minimal configs."""
     case = v.case
-    if not isinstance(case, dict) or case.get("kind") != "history":
+    if not isinstance(case, dict) or case.get("kind") not in ("history", "projection"):
         return v
     key = v.key()
     ops = [list(o) for o in case["ops"]]
@@ -726,16 +1139,14 @@ def shrink(ctx: Ctx, v: Violation) -> Violation:
     def fails(cand: List[List[Any]]) -> Optional[Violation]:
         if not cand:
             return None
-        rr = rs_run([{"ops": cand, "snap": True}])[0]
-        vs, _l, _n, _i = judge_history(cand, rr)
-        for x in vs:
+        for x in _judge_case(dict(case, ops=cand)):
             if x.key() == key:
                 return x
         return None
 
     best = v
     n = 2
-    while len(ops) >= 2 and time.time() - t0 < 50:
+    while len(ops) >= 2 and time.time() - t0 < 40:
         chunk = max(1, len(ops) // n)
         reduced = False
         for start in range(0, len(ops), chunk):
@@ -747,8 +1158,26 @@ def shrink(ctx: Ctx, v: Violation) -> Violation:
                 n = max(n - 1, 2)
                 reduced = True
                 break
+            if time.time() - t0 >= 40:
+                break
         if not reduced:
             if chunk == 1:
                 break
             n = min(len(ops), n * 2)
+    # shorter runs: halve, then decrement, the length of every bulk verb while the fingerprint stays
+    for k in range(len(ops)):
+        if ops[k][0] not in ("W", "R"):
+            continue
+        pos = 4 if ops[k][0] == "W" else 2
+        for shrinker in (lambda m: m // 2, lambda m: m - 1):
+            while ops[k][pos] > 1 and time.time() - t0 < 55:
+                cand = [list(o) for o in ops]
+                cand[k][pos] = shrinker(ops[k][pos])
+                if cand[k][pos] < 1:
+                    break
+                got = fails(cand)
+                if got is None or len(got.case["ops"]) != len(cand):
+                    break
+                ops = [list(o) for o in got.case["ops"]]
+                best = got
     return best
